@@ -6,3 +6,7 @@
 #undef TMCG_MAX_CARDS
 #define TMCG_MAX_CARDS VERIF_MAX_CARDS
 #endif
+#ifdef VERIF_MAX_FPOWM_T
+#undef TMCG_MAX_FPOWM_T
+#define TMCG_MAX_FPOWM_T VERIF_MAX_FPOWM_T
+#endif
